@@ -69,6 +69,8 @@ def read_routines(path):
         m = re.match(r'(?i)^(subroutine|function|real function|double precision function|block data|program)\s*(\w*)\s*(\(([^)]*)\))?', t)
         if m and not re.match(r'^\d', t):
             cur = m.group(2) or 'blockdata'
+            if cur.lower().endswith('low') and cur[0].islower():
+                cur = cur[0].upper() + cur[1:]      # 'pt192low' is declared in lower case and called as Pt192low
             routines[cur.lower()] = {'name': cur, 'params': [p.strip().lower() for p in (m.group(4) or '').split(',') if p.strip()],
                                      'body': [], 'line': ln}
             continue
